@@ -30,6 +30,7 @@ EXPLANATION = (
     "combined configuration's equal the union of its parts, forwarding calls pass p=p. R5: effect analysis for "
     "immutability. R6: validation must-calls and strictness of the monotonicity comparisons. R7: exactness domain "
     "{copy-of-parameter, computed} for the first and last bin edge of every factory method."
+    ' R8-R14 were added in later rounds (no stale memo, comoving inversion target, cosmology forwarding, no in-place update, NotSet truthiness, and R14: a from_dict arm selected by a key hands that value to the constructor).'
 )
 ASSUMPTIONS = [
     "numpy.linspace(a, b, n) returns a as first and b as last element exactly; results of log/exp/z_at_value round trips are not exact",
